@@ -8,11 +8,10 @@ from gen import dbgen
 from props.c12 import workdir
 
 THEOREMS = ["IgVerif.C16.c16_each_once", "IgVerif.C16.c16_unbroken_respected", "IgVerif.C16.c16_topological_when_unbroken",
-            "IgVerif.MO.inv_run", "IgVerif.MO.findCycle_get"]
-PARTIAL = [("c16_terminates (the while loop ends for every graph)",
-            "termination for all graphs is not a Lean theorem: the model's loop carries fuel; that the fuel is never exhausted "
-            "(`finished=1`) and that the real tool returns within the time limit is checked for every digraph explored"),
-           ("c16_broken_on_cycle (only edges of genuine cycles are broken)",
+            "IgVerif.C16.c16_terminates", "IgVerif.C16.c16_all_emitted",
+            "IgVerif.MO.inv_run", "IgVerif.MO.findCycle_get", "IgVerif.MO.findCycle_spec", "IgVerif.MO.findCycle_progress",
+            "IgVerif.MO.breakFold_lt", "IgVerif.MO.pass_inv", "IgVerif.MO.run_finishes"]
+PARTIAL = [("c16_broken_on_cycle (only edges of genuine cycles are broken)",
             "checked by the oracle on every explored graph (a broken edge must lie on a cycle of the intended graph); Lean proof of findCycle soundness pending")]
 
 LIBS = ["liba", "libb", "libc", "libd", "libe", "libf"]
@@ -115,6 +114,17 @@ def run(ck):
             graphs.append((ls, es))
         # the example from a past report: a library off the cycle that depends on two cycle members
         graphs.append((LIBS[:4], [("liba", "libb"), ("liba", "libc"), ("libb", "libc"), ("libc", "libd"), ("libd", "libb")]))
+        # many libraries, densely layered (library i uses most libraries below it), with a few circular
+        # dependencies: a search that walks every path of such a graph needs 2^n steps and never returns
+        for n, nback in ([(34, 1), (40, 3)] if quick else [(34, 1), (40, 3), (48, 2), (60, 5), (36, 0)]):
+            ls = ["lib%02d" % i for i in range(n)]
+            es = [(ls[i], ls[j]) for i in range(2, n) for j in range(i) if rng.random() < 0.9]
+            es += [(ls[0], ls[1]), (ls[1], ls[0])][:2 if nback else 0]
+            for _ in range(max(0, nback - 1)):
+                j = rng.randrange(2, n - 1)
+                i = rng.randrange(j + 1, n)
+                es.append((ls[j], ls[i]))
+            graphs.append((ls, sorted(set(es))))
         for gi, (ls, es) in enumerate(graphs):
             graph = dict((l, set()) for l in ls)
             for a, b in es:
@@ -161,7 +171,7 @@ def run(ck):
                 broken = [tuple(c.split(" -> ")[:2]) for c in cycles]
                 impl = "libs=%s broken=%s finished=1" % (",".join(reg3), ",".join("%s>%s" % b for b in broken))
                 ck.corr_case("module-order", {"graph": spec, "order": order}, impl == model, detail="impl %s | model %s" % (impl, model),
-                             feature=["cyclic" if broken else "acyclic-or-unbroken", "n=%d" % len(ls)])
+                             feature=["cyclic" if broken else "acyclic-or-unbroken", "n=%d" % len(ls) if len(ls) <= 6 else "n>=34"])
                 problem = None
                 if not (reg3 == reg2 == inst == defl == decl):
                     problem = "the RegisterTypes / BuildInstants / LibraryDef / extern sequences differ: %s %s %s %s %s" % (reg3, reg2, inst, defl, decl)
